@@ -9,8 +9,8 @@
 using namespace sim;
 using namespace mpt;
 
-enum { OP_NEW, OP_INSERT, OP_ADD, OP_AFTER, OP_BEFORE, OP_UNLINK, OP_MOVE, OP_CLONE, OP_LIST_CLONE, OP_TREE_CLONE, OP_SWAP, OP_RELINK, OP_CLEAR, OP_DESTROY, OP_QUERY, OP_SWITCH, OP_TEXT_CLONE };
-static const char *const OPS[] = {"NEW", "INSERT", "ADD", "AFTER", "BEFORE", "UNLINK", "MOVE", "CLONE", "LIST_CLONE", "TREE_CLONE", "SWAP", "RELINK", "CLEAR", "DESTROY", "QUERY", "SWITCH", "TEXT_CLONE", 0};
+enum { OP_NEW, OP_INSERT, OP_ADD, OP_AFTER, OP_BEFORE, OP_UNLINK, OP_MOVE, OP_CLONE, OP_LIST_CLONE, OP_TREE_CLONE, OP_SWAP, OP_RELINK, OP_CLEAR, OP_DESTROY, OP_QUERY, OP_SWITCH, OP_TEXT_CLONE, OP_CXX_COPY };
+static const char *const OPS[] = {"NEW", "INSERT", "ADD", "AFTER", "BEFORE", "UNLINK", "MOVE", "CLONE", "LIST_CLONE", "TREE_CLONE", "SWAP", "RELINK", "CLEAR", "DESTROY", "QUERY", "SWITCH", "TEXT_CLONE", "CXX_COPY", 0};
 enum { FL_NONE, FL_ALLOC };
 static const char *const FAULTS[] = {"none", "allocfail", 0};
 static const std::string LONGNAME(300, 'L');  // longer than any node's inline name capacity: stored in its own allocation
@@ -53,7 +53,7 @@ struct TreeWorld : World {
 		for (int i = 0; i < nops; ++i) {
 			Op op;
 			static const int kinds[] = {OP_NEW, OP_NEW, OP_NEW, OP_INSERT, OP_INSERT, OP_INSERT, OP_ADD, OP_ADD, OP_AFTER, OP_BEFORE, OP_UNLINK, OP_UNLINK, OP_MOVE, OP_CLONE, OP_LIST_CLONE, OP_TREE_CLONE, OP_TREE_CLONE,
-			                            OP_SWAP, OP_CLEAR, OP_DESTROY, OP_DESTROY, OP_QUERY, OP_TEXT_CLONE, OP_SWITCH, OP_RELINK};
+			                            OP_SWAP, OP_CLEAR, OP_DESTROY, OP_DESTROY, OP_QUERY, OP_TEXT_CLONE, OP_SWITCH, OP_RELINK, OP_CXX_COPY};
 			op.kind = r.pick(kinds);
 			op.a = r.below(64) | (r.below(64) << 8);  // node selectors
 			op.b = r.range(-3, 3);                    // position
@@ -360,6 +360,17 @@ struct TreeWorld : World {
 				r0.~Rel(); r0.n = 0;
 				outcome = c1 ? 1 : 0;
 				(void) ledger0;
+				break;
+			}
+			case OP_CXX_COPY: {
+				// a C++ copy of a node (copy construction or assignment) is a value of its own: it takes no place in the original's list, owns none of
+				// its children and holds a reference of its own to the value; when it goes away the original is what it was
+				if (!x) break;
+				if (op.c & 1) { Sut s; node cp(*x); (void) cp; }
+				else { Sut s; node cp; cp = *x; }
+				log.ev("CXX_COPY of %d (%s)", idof(x), (op.c & 1) ? "copy construction" : "assignment");
+				st.hit("probe:cxx_node_copied");
+				outcome = 1;
 				break;
 			}
 			case OP_RELINK: {
